@@ -327,7 +327,9 @@ impl<'tcx> Cx<'tcx> {
         }
     }
 
-    fn body_json(&self, def: LocalDefId) -> Option<String> {
+    /// Clone the `mir_built` body before any other query can steal it (borrowck of a
+    /// function is triggered as soon as an opaque `impl Future` type of it is revealed).
+    fn clone_body(&self, def: LocalDefId) -> Option<Body<'tcx>> {
         let tcx = self.tcx;
         let kind = tcx.def_kind(def);
         if !matches!(
@@ -341,7 +343,13 @@ impl<'tcx> Cx<'tcx> {
             self.stolen.borrow_mut().push(self.path(def.to_def_id()));
             return None;
         }
-        let body = steal.borrow();
+        let b = steal.borrow().clone();
+        Some(b)
+    }
+
+    fn body_json(&self, def: LocalDefId, body: &Body<'tcx>) -> Option<String> {
+        let tcx = self.tcx;
+        let kind = tcx.def_kind(def);
         let did = def.to_def_id();
         let mut o = String::new();
         let (file, lo, hi, _) = self.span_info(tcx.def_span(did));
@@ -910,8 +918,15 @@ impl rustc_driver::Callbacks for Cb {
         let (cf, rest): (Vec<LocalDefId>, Vec<LocalDefId>) = owners.iter().partition(|d| {
             matches!(tcx.def_kind(**d), DefKind::Fn | DefKind::AssocFn) && tcx.is_const_fn(d.to_def_id())
         });
+        let mut cloned: Vec<(LocalDefId, Body<'tcx>)> = Vec::new();
         for def in cf.into_iter().chain(rest.into_iter()) {
-            if let Some(j) = cx.body_json(def) {
+            if let Some(b) = cx.clone_body(def) {
+                cloned.push((def, b));
+            }
+        }
+        for (def, body) in cloned.iter() {
+            let def = *def;
+            if let Some(j) = cx.body_json(def, body) {
                 if !first {
                     out.push(',');
                 }
